@@ -36,18 +36,23 @@ OBLIGATIONS = ["NiftyVerif.C35." + t for t in (
     "los_traverse_in_grid",
     "nft_adjoint", "nft_mono_apply_spec", "nft_on_grid_is_dft", "nft_on_grid_is_dft_nd", "nft_shift", "nft_entry_is_phase")]
 RULE = ("one case = (operator class, generated grid / sampling points / line segments / positions / mask / accuracy); "
-        "non-trivial = the operator has at least one non-zero weight; distinct by canonical JSON of the case")
+        "non-trivial = the operator has at least one non-zero weight; distinct by canonical JSON of the case; "
+        "LOS lines: los-refine-compared = generic lines on which transcription and independent model were compared exactly")
 TRUSTED_BASE = [
     "Lean 4.33 kernel; axioms propext/Classical.choice/Quot.sound only (audited every run)",
-    "hand-written Lean models Model/Response.lean (interpolation, LOS traversal), Model/LinOps.lean (regridding, padding, mask) "
-    "tied by differential comparison",
+    "hand-written Lean models Model/Response.lean (interpolation, independent LOS segment model), Model/ResponseLos.lean "
+    "(transcription of _comp_traverse / LOSResponse.__init__), Model/Nft.lean (lattice Fourier matrix), Model/LinOps.lean "
+    "(regridding, padding, mask), each tied by differential comparison",
     "ducc0 nufft/wgridder kernels, scipy.sparse, jax map_coordinates: executed, compared with explicit sums / closed forms only",
-    "harness: generators, explicit O(n·m) Fourier sums, sampled line integrals",
+    "harness: generators, explicit O(n·m) Fourier sums and their derivative, per-pixel segment∩box lengths, exact periodic "
+    "multilinear sums, numerical evaluation of the model's polynomials in ω",
 ]
 ASSUMPTIONS = [
     "LOSResponse with sigmas != 0 (erfc weighting) is compared numerically only through adjointness/linearity",
-    "class T tolerances: LOS 3e-6·length (float32 weights, 1e-7 end-point fudge in the code); NFT 100·epsilon·Σ|input|",
-    "LOS comparisons are skipped when the exact model shows a sub-segment shorter than 1e-5 (line through a grid corner)",
+    "LOS: float64 rounding of the traversal is outside the model; the float32 weight cast is reproduced in the harness "
+    "(tolerance 2.5e-7·|w| + 1e-10·length against the transcription at eps = 1e-7); np.argsort ties (lines through a grid "
+    "edge/corner) are outside the refinement theorem: such lines are compared numerically and counted as non-generic",
+    "NFT: class T tolerance 100·epsilon·Σ|input| against explicit sums and against the exact lattice model",
 ]
 
 
